@@ -13,7 +13,7 @@ RULE = ('a universe of ~110 hand-enumerated values (None, bools, ints, floats, n
         'with zero-length axes, Series and DataFrames with int/str/date index) is paired with itself: EVERY unordered pair gives one case '
         'evaluating eq(x,y) and eq(y,x) (the diagonal twice: same object, and an independently built copy holding fresh NaN objects); '
         'random nestings to depth 3 plus representation-changing variants (1 / 1.0 / np.int64(1), dict insertion order, dtype, NaN object) '
-        'and single-point mutants (one cell, container kind at depth, shape, index label, dict class) give further pairs, triples '
+        'and single-point mutants (one cell, container kind at depth, shape, index label, dict class), plus same-size dicts with different key sets whose non-shared keys map to None (also nested / subclassed / with shared keys), give further pairs, triples '
         '(x,y,z: eq(x,y), eq(y,z), eq(x,z)) and in_(x, seq) cases. Compared inside Coq with M_eq.eq_model / in_model (outcome Raised is a value). '
         'Oracle on the real outputs: never raises, returns bool, symmetric, transitive on the triple, in_ = any(eq), and equal to the '
         'structural rule read off the property text wherever that rule is determined (undetermined only for dtype-only differences). '
@@ -343,6 +343,11 @@ def universe():
           D([('a', L(I(1), I(2))), ('b', L(I(3), I(4)))]), D([('a', T(I(1), I(2))), ('b', T(I(3), I(4)))]),
           D([('a', A('float', [2, 3], [F(0)] * 6)), ('b', A('float', [2, 4], [F(0)] * 8))]),
           D([('a', SR('int', [I(0), I(1)], [I(1), I(2)]))]), D([('a', SR('int', [I(5), I(6)], [I(1), I(2)]))])]
+    NONE = ['none']
+    U += [D([('a', NONE)]), D([('b', NONE)]), D([('a', NONE), ('c', I(1))]), D([('b', NONE), ('c', I(1))]), D([('c', I(1)), ('b', NONE)]),
+          D([('a', NONE), ('b', I(1))]), D([('a', NONE)], 'Dict'), D([('b', NONE)], 'Dict'), D([('a', NONE)], 'FunnyDict'), D([('b', NONE)], 'FunnyDict'),
+          D([('x', D([('a', NONE)]))]), D([('x', D([('b', NONE)]))]), L(D([('a', NONE)])), L(D([('b', NONE)])),
+          D([('a', NONE), ('b', NONE)]), D([('c', NONE), ('d', NONE)]), D([('a', NONE), ('d', NONE)])]
     U += [A('int', [1], [I(1)]), A('int', [1, 1], [I(1)]), A('int', [], [I(1)]), A('int', [2], [I(1), I(2)]), A('int', [1, 2], [I(1), I(2)]),
           A('int', [2, 1], [I(1), I(2)]), A('int', [3], [I(1), I(1), I(1)]), A('float', [1], [F(2)]), A('float', [2], [F(2), NAN]), A('float', [2], [F(2), F(4)]),
           A('float', [2], [F(3), F(4)]), A('float', [], [NAN]), A('float', [], [F(2)]), A('bool', [1], [['bool', True]]), A('str', [1], [S('a')]), A('str', [2], [S('a'), S('b')]),
@@ -502,6 +507,27 @@ def mutant(rng, s):
         return FR(s[1], s[2], s[3] + [S('zz')], s[4])
     return s
 
+def none_key_pair(rng, depth=2):
+    """two dicts of equal size with different key sets whose non-shared keys all map to None (y.get(k) would default
+    to None), optionally sharing further keys, optionally wrapped in containers; eq must be False"""
+    cls = rng.choice(['dict', 'dict', 'Dict', 'FunnyDict', 'OrderedDict'])
+    ks = rng.sample(KEYS, rng.choice([2, 3, 4, 5]))
+    j = rng.randrange(1, len(ks) // 2 + 1)
+    own_x, own_y, shared = ks[:j], ks[j:2 * j], ks[2 * j:]
+    common = [[k, rand_val(rng, depth - 1)] for k in shared]
+    x = [[k, ['none']] for k in own_x] + copy.deepcopy(common)
+    y = [[k, ['none']] for k in own_y] + [[k, variant(rng, v)] for k, v in common]
+    rng.shuffle(x); rng.shuffle(y)
+    x, y = ['dict', cls, x], ['dict', cls, y]
+    for _ in range(rng.choice([0, 0, 1, 2])):
+        w = rng.random()
+        if w < 0.3: x, y = L(x), L(y)
+        elif w < 0.5: x, y = T(I(1), x), T(I(1), y)
+        elif w < 0.8:
+            k = rng.choice(KEYS); x, y = D([(k, x)]), D([(k, y)])
+        else: x, y = A('object', [1], [x]), A('object', [1], [y])
+    return x, y
+
 def gen_cases(rng, tier):
     U = universe()
     cases = []
@@ -517,6 +543,11 @@ def gen_cases(rng, tier):
         cases.append({'kind': 'pair', 'x': x, 'y': y})
     for _ in range(n // 4):
         cases.append({'kind': 'pair', 'x': rand_val(rng, 2), 'y': rand_val(rng, 2)})
+    for _ in range(n // 3):
+        x, y = none_key_pair(rng)
+        cases.append({'kind': 'pair', 'x': x, 'y': y})
+        if rng.random() < 0.3:
+            cases.append({'kind': 'triple', 'x': x, 'y': y, 'z': variant(rng, x)})
     for _ in range(n):
         x = rand_val(rng, rng.choice([0, 1, 2, 2, 3]))
         y = variant(rng, x); z = variant(rng, y)
